@@ -156,6 +156,19 @@ Section Inputs.
     now rewrite E.
   Qed.
 
+  (* a reference by class names exactly the task of that class: when that task is not in the chain, a task whose name
+     merely matches the short form (another class of the same name in a group) does not stand in for it - the input is
+     absent (after the repair F27; before it construction died with a KeyError) *)
+  Theorem resolve_one_by_class_absent ns names acc d k tc found :
+    i_ref d = inr k -> cls classes k = inl tc -> dhas (prefixed ns (c_slug tc)) acc = false ->
+    find_task_full_name false (prefixed ns (c_slug tc)) names = inl found ->
+    existsb (str_eqb (prefixed ns (c_slug tc))) names = false ->
+    resolve_one classes ns names acc d =
+    if i_required d then inr EMissingInput else inl (dset (prefixed ns (c_slug tc)) (inr (i_default d)) acc).
+  Proof.
+    intros Hr Hc Hd Hf Hn. unfold resolve_one. rewrite Hr, Hc, Hd, Hf, Hn. reflexivity.
+  Qed.
+
   (* a required input that matches no task is an error; an optional one is bound to its default
      and creates no edge *)
   Theorem resolve_one_missing ns names acc d n0 e :
